@@ -68,10 +68,10 @@ int e1_callback_count() { return 4; }
 struct Dev { int p; LD v; };
 struct Assignment { int nd; Dev d[3]; };
 
-struct Stat { long n = 0; double maxratio = 0; long nviol = 0; long nknown = 0; };
+struct Stat { long n = 0; double maxratio = 0; double maxratio_op = 0; long nviol = 0; long nknown = 0; };
 struct Opts {
   std::string prop, tier = "quick", out, only, replay; int seed = 0, jobs = 16; double deadline = 1e9; double K = 65536.0;
-  bool precision = false; int maxdev = -1; double Kdl = 0;
+  bool precision = false; int maxdev = -1; double Kdl = 0; bool ldfull = false;
 };
 static Opts O;
 static const double U_D = ldexp(1.0, -53), U_LD = ldexp(1.0, -64);
@@ -201,6 +201,7 @@ struct Runner {
           if (ratio_alt >= 0 && ratio_alt <= O.K) { known[e.alt_id + "|" + C.sys->name + "|" + e.fn + "/" + e.sig + "|" + scal]++; st.nknown++; bad = false; ratio = ratio_alt; }
         } else if (ratio_alt >= 0 && ratio_alt < ratio) ratio = ratio_alt;  // discrepancy of a listed signature smaller than K here: roundoff is measured against the nearer model
         if (!bad && ratio > st.maxratio) st.maxratio = ratio;
+        if (!bad && e.ref.t > 0) { double ro = (double)(errq / ((Q)u * e.ref.t)); if (ro > st.maxratio_op) st.maxratio_op = ro; }
       }
     }
     if (bad) {
@@ -225,13 +226,13 @@ struct Runner {
     g_cb_calls_d = g_cb_calls_l = 0;
     LD l = ent->cl(A); double d = ent->cd(A); transitions += 2;
     Q el, ed;
-    check_one<LD>(e, l, U_LD, "ld", P, nd, el);
-    check_one<double>(e, d, U_D, "d", P, nd, ed);
+    check_one<LD>(e, l, U_LD, O.ldfull ? "ld62" : "ld", P, nd, el);
+    if (!O.ldfull) check_one<double>(e, d, U_D, "d", P, nd, ed);
     if (e.has_cb_arg && !e.special) {  // the callback must have been called, with the exact temperature
       Expect a = e; a.fn = e.fn + "@callback_arg"; a.ref = e.cb_arg; a.alt_id.clear(); a.mode = 0;
       Q dummy;
       check_one<LD>(a, g_cb_calls_l > 0 ? g_cb_arg_l : (LD)NAN, U_LD, "ld", P, nd, dummy);
-      check_one<double>(a, g_cb_calls_d > 0 ? g_cb_arg_d : (double)NAN, U_D, "d", P, nd, dummy);
+      if (!O.ldfull) check_one<double>(a, g_cb_calls_d > 0 ? g_cb_arg_d : (double)NAN, U_D, "d", P, nd, dummy);
     }
     if (samples_left > 0 && e.mode == 0 && !e.special) {
       samples_left--;
@@ -257,7 +258,7 @@ struct Runner {
         Expect e = *ea; e.prop = "C20"; e.fn = std::string(m.fnA) + "==" + g_red->B + ":" + m.fnB; e.alt_id.clear(); Q dummy;
         // the two library values must agree; each is also compared with A's reference value to keep the scale honest
         e.ref = VS((Q)bl, ea->ref.s); check_one<LD>(e, al, U_LD, "ld", P, nd, dummy);
-        e.ref = VS((Q)bd, ea->ref.s); check_one<double>(e, ad, U_D, "d", P, nd, dummy);
+        e.ref = VS((Q)bd, ea->ref.s); if (!O.ldfull) check_one<double>(e, ad, U_D, "d", P, nd, dummy);
       }
     }
   }
@@ -266,6 +267,9 @@ struct Runner {
   bool run_assignment(const Assignment& a) {
     Params P = C.base;
     for (int k = 0; k < a.nd; k++) P.m[P.names[a.d[k].p]] = a.d[k].v;
+    // long-double-only pass: every input gets 62 significant bits (exact in long double and float128, NOT representable in
+    // double), so a double temporary holding nothing but inputs (Gamma - 1, a*pi/L ...) is no longer exact by accident
+    if (O.ldfull) for (auto& kv : P.m) if (std::find(C.sys->frozen.begin(), C.sys->frozen.end(), kv.first) == C.sys->frozen.end()) kv.second = kv.second * (1.0L + 0x1p-48L);
     if (C.sys->derive) C.sys->derive(P);
     std::vector<std::vector<Expect>> ex(C.pts.size());
     size_t nskip = 0;
@@ -305,6 +309,7 @@ static void build_ctx(Ctx& C, const System& sys, int tier) {
   if (g_red) for (auto& f : g_red->fixA) { if (!C.base.has(f.first)) { fprintf(stderr, "E1 HARNESS ERROR: reduction %s fixes unknown parameter %s\n", g_red->id.c_str(), f.first.c_str()); exit(2); } C.base.m[f.first] = f.second; }
   if (sys.derive) sys.derive(C.base);
   C.pts = sys.points(tier);
+  if (O.ldfull) for (auto& p : C.pts) for (int k = 0; k < 4; k++) p.c[k] = p.c[k] * (1.0L + 0x1p-47L);
   C.alpha.assign(names.size(), {});
   for (size_t i = 0; i < names.size(); i++) {
     if (std::find(sys.frozen.begin(), sys.frozen.end(), names[i]) != sys.frozen.end()) continue;
@@ -356,7 +361,7 @@ static int run_system(const System& sys0, int tier, FILE* out, double t_end) {
         R.run_assignment(C.as[i]);
       }
       (void)stop_level;
-      for (auto& kv : R.stats) fprintf(fo, "{\"k\":\"stat\",\"key\":\"%s\",\"n\":%ld,\"maxratio\":%.6g,\"nviol\":%ld,\"nknown\":%ld}\n", kv.first.c_str(), kv.second.n, kv.second.maxratio, kv.second.nviol, kv.second.nknown);
+      for (auto& kv : R.stats) fprintf(fo, "{\"k\":\"stat\",\"key\":\"%s\",\"n\":%ld,\"maxratio\":%.6g,\"maxratio_op\":%.6g,\"nviol\":%ld,\"nknown\":%ld}\n", kv.first.c_str(), kv.second.n, kv.second.maxratio, kv.second.maxratio_op, kv.second.nviol, kv.second.nknown);
       for (auto& kv : g_counts) fprintf(fo, "{\"k\":\"count\",\"system\":\"%s\",\"key\":\"%s\",\"n\":%ld}\n", sys.name.c_str(), kv.first.c_str(), kv.second);
       for (auto& kv : R.known) fprintf(fo, "{\"k\":\"known\",\"key\":\"%s\",\"n\":%ld}\n", kv.first.c_str(), kv.second);
       fprintf(fo, "{\"k\":\"worker\",\"system\":\"%s\",\"states\":%ld,\"transitions\":%ld,\"comparisons\":%ld,\"inadmissible\":%ld,\"inadmissible_points\":%ld,\"done\":%ld,\"timed_out\":%s,\"stopped_at\":%zu}\n", sys.name.c_str(), R.states, R.transitions, R.comparisons, R.inadmissible, R.inadmissible_points, R.done, timed_out ? "true" : "false", timed_out ? last : C.as.size());
@@ -421,6 +426,7 @@ int main(int argc, char** argv) {
     else if (a == "--out") O.out = nx(); else if (a == "--only") O.only = nx(); else if (a == "--jobs") O.jobs = atoi(nx().c_str());
     else if (a == "--deadline") O.deadline = atof(nx().c_str()); else if (a == "--K") O.K = atof(nx().c_str()); else if (a == "--replay") O.replay = nx();
     else if (a == "--maxdev") O.maxdev = atoi(nx().c_str());
+    else if (a == "--ldfull") O.ldfull = true;
     else if (a == "--list") { for (auto& s : e1_systems()) printf("%s %s\n", s.prop.c_str(), s.name.c_str()); return 0; }
   }
   if (O.out.empty()) O.out = "/tmp/e1.out";
